@@ -23,10 +23,10 @@ ASSUMPTIONS = ["CPython ast", "side effects of IR are memory writes, IRDst, exce
 
 
 def run(ck):
-    ck.rule("R1", "only assignments outside `useful` are deleted; `useful` contains every unkillable destination and the leaf outputs", floor=9)
-    ck.rule("R2", "pc, IRDst and exception_flags are immutable for the SSA transformation", floor=2)
-    ck.rule("R3", "SSA simplifier pipeline order", floor=2)
-    ck.rule("R4", "the aliasing test of expression propagation measures each memory access with its own base, offset and size", floor=4)
+    ck.rule("R1", "only assignments outside `useful` are deleted; `useful` contains every unkillable destination and the leaf outputs", floor=5)
+    ck.rule("R2", "pc, IRDst and exception_flags are immutable for the SSA transformation", floor=1)
+    ck.rule("R3", "SSA simplifier pipeline order", floor=1)
+    ck.rule("R4", "the aliasing test of expression propagation measures each memory access with its own base, offset and size", floor=3)
     _merge_rules(ck)
     _phi_rules(ck)
 
@@ -212,7 +212,7 @@ def _merge_rules(ck):
     parent and the son disappears from blocks and graph."""
     from sa.pathob import undischarged, path_text
     from sa.facts import guard_facts
-    ck.rule("R5", "block merging drops nothing of the parent block but its IRDst assignment", floor=5)
+    ck.rule("R5", "block merging drops nothing of the parent block but its IRDst assignment", floor=3)
     m = ck.repo.mod(DF)
     from sa.prenorm import normalise_function
     fn = normalise_function(m.func("_do_merge_blocks"))
@@ -321,7 +321,7 @@ def _phi_rules(ck):
     says `parents(src) - deleted == {}` (difference empty / subset); a source reaching the join through two predecessors, one of them still
     alive, stays."""
     from sa import symval
-    ck.rule("R6", "a Phi source is dropped only when all the predecessor edges it flows through are deleted", floor=2)
+    ck.rule("R6", "a Phi source is dropped only when all the predecessor edges it flows through are deleted", floor=1)
     m = ck.repo.mod(DF)
     fn = m.func("update_phi_with_deleted_edges")
     loops = [n for n in walk_body(fn) if isinstance(n, ast.For) and norm(n.iter).endswith(".args") and isinstance(n.target, ast.Name)]
